@@ -1,7 +1,7 @@
 from common import T_COMMON
 
 CFG = dict(
-    modules=["PolyVerif.Props.C06", "PolyVerif.Props.C06Scene", "PolyVerif.Props.C06Data", "PolyVerif.Props.C06Tables", "PolyVerif.Props.C06Carry", "PolyVerif.Props.C06Valid", "PolyVerif.Props.C06Dedup", "PolyVerif.Props.C06Full", "PolyVerif.Props.C06Equal", "PolyVerif.Props.C06Zip", "PolyVerif.Props.C06Mat", "PolyVerif.Props.C06Node", "PolyVerif.Props.C06Topo", "PolyVerif.Props.C06Glb"],
+    modules=["PolyVerif.Props.C06", "PolyVerif.Props.C06Scene", "PolyVerif.Props.C06Data", "PolyVerif.Props.C06Tables", "PolyVerif.Props.C06Carry", "PolyVerif.Props.C06Valid", "PolyVerif.Props.C06Dedup", "PolyVerif.Props.C06Full", "PolyVerif.Props.C06Equal", "PolyVerif.Props.C06Zip", "PolyVerif.Props.C06Mat", "PolyVerif.Props.C06Node", "PolyVerif.Props.C06Topo", "PolyVerif.Props.C06Glb", "PolyVerif.Props.C06Panic"],
     # property theorems (audited); scene_* quantify over EVERY well-formed scene, gltf_* over every admissible write sequence
     theorems=["scene_inv", "scene_valid_low", "gltf_refs_in_range", "scene_refs_ok", "gltf_node_trs",
               "scene_dinv", "gltf_prims_consistent", "scene_prims_ok", "gltf_carries_scene", "gltf_extensions_declared", "scene_nodes_ok", "gltf_scene_valid",
@@ -14,7 +14,8 @@ CFG = dict(
               # round 2 (Props/C06Topo): every topology value and nil texture literals inside the quantifier
               "writeSceneT_ok_iff", "gltf_scene_topo_full", "gltf_topo_carried_iff", "gltf_mode_index_iff",
               "gltf_carries_scene_anytopo", "scene_zip_carries", "gltf_unknown_topology_rejected",
-              "gltf_line_written_as_triangles", "lineScene_ok", "gltf_nil_normal_rejected", "gltf_unknown_topology_panics",
+              "gltf_line_written_as_triangles", "lineScene_ok", "gltf_nil_normal_rejected", "gltf_unknown_topology_panics", "gltf_doc_mode_count_imp",
+              "gltf_panic_only_if", "addMaterial_badId",
               # round 2 (Props/C06Glb): the GLB container through a reader
               "glb_parse_write", "glb_parse_write_prefix", "glb_roundtrips", "glb_frame_readFrame_ok", "glb_json_chunk", "glb_bin_chunk"],
     # helper lemmas the above rest on (kernel-checked with the module, not counted as obligations)
